@@ -2,7 +2,7 @@
    a [new()] step applied to an existing non-list node rewrites it (known finding
    C04/new-in-lookup; the witness is replayed on the implementation on every run). *)
 From Coq Require Import List NArith ZArith.
-From N0 Require Import Base.PyStr Base.PyVal Xpath.Dec Xpath.Token Xpath.Find.
+From N0 Require Import Base.PyStr Base.PyVal Xpath.Dec Xpath.Token Xpath.Find Xpath.StarKeyProofs.
 Import ListNotations.
 
 Theorem C04_lookup_pure_refuted :
@@ -12,3 +12,20 @@ Proof.
   eexists. eexists. split; [vm_compute; reflexivity|]. discriminate.
 Qed.
 Print Assumptions C04_lookup_pure_refuted.
+
+(* "get and first never raise": false of the faithful model on a dictionary whose first key is the text "*" when the
+   path has a '*' name step there - the fan-out hands the key "*" back to the step parser in front of the remaining
+   steps (the '*' step included), so it is read as the wildcard again on the same dictionary: no amount of fuel is
+   enough (the real code ends in RecursionError, which the funnel of get / first does not convert).  Known finding
+   C04/star-key-recursion; the witness is replayed on the implementation on every run. *)
+Theorem C04_star_key_never_returns_refuted :
+  forall rl c v others fuel rest par fstr root,
+  find true rl fuel root (s_star :: rest) par (Dict c ((s_star, v) :: others)) fstr = OutOfFuel.
+Proof. exact star_key_never_returns. Qed.
+Print Assumptions C04_star_key_never_returns_refuted.
+
+Theorem C04_star_key_witness :
+  dict_get_pub (fuel_for sk_tree sk_x) sk_tree sk_x = OutOfFuel /\
+  dict_getitem (fuel_for sk_tree sk_x) sk_tree sk_x = OutOfFuel.
+Proof. exact star_key_example. Qed.
+Print Assumptions C04_star_key_witness.
